@@ -1,7 +1,7 @@
 --------------------------- MODULE Trace_Babai ---------------------------
 (* Trace validation of the two public Babai reductions against Babai.tla.                                  *)
 (*  {"ev":"babai","n","f","g","F","G","i32":{"ok","panic","F","G"},"big":{..},"i32_second":{..},"big_second":{..},"tag"} *)
-(* Demanded: neither version panics; both agree on Ok/Err and, when Ok, on the result; the result differs from   *)
+(* Demanded: neither version panics; both return Ok (f f* + g g* is invertible in every family) and agree on the result; the result differs from   *)
 (* the input by an integer-polynomial multiple of (f, g) (hence f G' - g F' = f G - g F, also checked directly);    *)
 (* a second reduction of the result is the identity.                                                     *)
 EXTENDS Babai, TraceLib
@@ -15,7 +15,9 @@ Judge(e) ==
       mult == IF a.ok THEN MultipleOf(e.f, e.g, VecSub(e.F, a.F), VecSub(e.G, a.G)) ELSE [decided |-> FALSE, holds |-> TRUE, kmax |-> 0]
       idem == a.ok => (/\ ~e.i32_second.panic /\ e.i32_second.ok /\ e.i32_second.F = a.F /\ e.i32_second.G = a.G
                        /\ (b.ok => (~e.big_second.panic /\ e.big_second.ok /\ e.big_second.F = b.F /\ e.big_second.G = b.G)))
-      facts == [no_panic |-> nopanic, versions_agree |-> nopanic => agree, det_invariant |-> nopanic => inv,
+      \* every family the driver builds has an invertible f f* + g g*: the reduction must return (an Err is the
+      \* 1000-iteration guard: non-termination, defect D9 before fix)
+      facts == [returns |-> nopanic => (a.ok /\ b.ok), no_panic |-> nopanic, versions_agree |-> nopanic => agree, det_invariant |-> nopanic => inv,
                 multiple_of_fg |-> nopanic => mult.holds, idempotent |-> nopanic => idem]
       failed == {k \in DOMAIN facts : ~facts[k]}
   IN [ok |-> failed = {}, branch |-> "n" \o ToString(e.n) \o "-" \o e.tag \o (IF a.ok THEN "" ELSE "-err") \o (IF mult.decided THEN "" ELSE "-kskipped"),
